@@ -46,6 +46,12 @@ const (
 	OpGetBucketVersioning     Operation = "GetBucketVersioning"
 	OpPutBucketVersioning     Operation = "PutBucketVersioning"
 	OpListObjectVersions      Operation = "ListObjectVersions"
+	OpGetBucketNotification   Operation = "GetBucketNotification"
+	OpPutBucketNotification   Operation = "PutBucketNotification"
+	OpGetObjectTagging        Operation = "GetObjectTagging"
+	OpPutObjectTagging        Operation = "PutObjectTagging"
+	OpDeleteObjectTagging     Operation = "DeleteObjectTagging"
+	OpTransitionStorageClass  Operation = "TransitionObjectStorageClass"
 )
 
 type Phase string
